@@ -4,7 +4,7 @@ import time
 
 from hypothesis import strategies as st
 
-from vlib.fakeradio import HarnessTimeout, LockstepDongle, RadioEnv, SafelinkPeer
+from vlib.fakeradio import HarnessTimeout, LockstepDongle, RadioEnv, RadioThreadEnded, SafelinkPeer
 from vlib.runner import Outcome, Sub
 
 PROPERTY = 'C01'
@@ -72,6 +72,7 @@ def _run_session(rd, drv, dongle, case, out, session_index):
     if True:
         rd.set_retries_before_disconnect(N)
         drv.connect('radio://0/80/2M', None, lambda m: errors.append((txi['n'], m)))
+        dongle.alive_check = lambda: drv._thread is not None and drv._thread.is_alive()
         try:
             # ---- negotiation
             host_safelink = False
@@ -112,7 +113,7 @@ def _run_session(rd, drv, dongle, case, out, session_index):
             loss_with_down = False
             inflight_up = False
             ndown = sum(s_['down'] for s_ in steps)
-            flush = [{'submit': False, 'down': 0, 'outcome': 'ok'}] * (ndown + 6)
+            flush = [{'submit': False, 'down': 0, 'outcome': 'ok'}] * (2 * ndown + 6)
             for si, step in enumerate(list(steps) + flush):
                 frame = dongle.next_tx()
                 txi['n'] += 1
@@ -149,6 +150,10 @@ def _run_session(rd, drv, dongle, case, out, session_index):
                     if down_seq % 6 == 5:
                         body = bytes([down_seq & 0xff, down_seq >> 8]) + bytes(range(28))     # a full packet: 30 data bytes
                     hdr = ((down_seq % 15) << 4) | (down_seq // 15) % 4
+                    if down_seq % 5 == 2:
+                        # link-service traffic in between (port 15 channel 3: RSSI reports, also truncated ones); it is not part of
+                        # the comparison below but must not disturb the packets around it
+                        peer.queue.append(bytes([0xF3]) + [b'\x01', b'\x01\x2d', b'\x01\x2d\x00', b'\x00'][(down_seq // 5) % 4])
                     peer.queue.append(bytes([hdr]) + body)
                     queued.append((down_seq % 15, (down_seq // 15) % 4, body))
                     down_seq += 1
@@ -178,6 +183,10 @@ def _run_session(rd, drv, dongle, case, out, session_index):
                 if p is None:
                     break
                 received.append((p.port, p.channel, bytes(p.data)))
+        except RadioThreadEnded:
+            out.fail('radio:thread-died', 'session %d nego %r N=%d after %d transmissions: the radio thread ended on its own (link still open, no error reported): '
+                     'nothing is transmitted or received any more' % (session_index, case['nego'], N, txi['n']))
+            return
         finally:
             dongle.release(b'\x00')
             drv.close()
